@@ -1037,7 +1037,7 @@ Section Forward.
       { rewrite (S4 v Hv Hvs). apply lsumf_zero.
         intros u Hu. unfold tm, pc. assert (H0 := proj1 (Hseen u (Hlts u Hu)) Hu).
         destruct (dzf d u + 1 =? dzf d v)%Z eqn:E; [apply Z.eqb_eq in E; lia|]. rewrite andb_false_r. reflexivity. }
-      unfold zq in Zq. change 0%Q with (inject_Z 0) in Zq. apply inject_Z_injective in Zq. exact Zq.
+      unfold zq in Zq. change 0%Q with (inject_Z 0) in Zq. exact (proj1 (inject_Z_injective _ _) Zq).
     - exact S5.
   Qed.
 End Forward.
@@ -1397,4 +1397,131 @@ Proof.
   destruct (is_symmetric g).
   - rewrite V_div, Qred_correct, (Hsc v Hv). reflexivity.
   - exact (Hsc v Hv).
+Qed.
+
+(* ------------------------------------------------------------------------------------------ *)
+(** * Part E. Shortest paths as explicit node lists; their number is [nw] *)
+
+(** all walks of k edges starting in u, as lists of k + 1 nodes *)
+Fixpoint walks_from (p : graph) (k u : nat) : list (list nat) :=
+  match k with
+  | O => [[u]]
+  | S k' => flat_map (fun w => map (cons u) (walks_from p k' w)) (row p u)
+  end.
+
+(** consecutive nodes are joined by an arc *)
+Fixpoint is_walk (p : graph) (l : list nat) : Prop :=
+  match l with
+  | [] => False
+  | x :: r => match r with [] => True | y :: _ => In y (row p x) /\ is_walk p r end
+  end.
+
+(** the walks of d edges from s to t; they are the shortest paths when d is the hop distance *)
+Definition shortest_paths (p : graph) (s t d : nat) : list (list nat) :=
+  filter (fun l => Nat.eqb (last l 0) t) (walks_from p d s).
+
+Lemma walks_from_spec p k : forall u l,
+  In l (walks_from p k u) <-> length l = S k /\ hd 0 l = u /\ is_walk p l.
+Proof.
+  induction k as [|k IH]; intros u l; cbn [walks_from].
+  - split.
+    + intros [<-|[]]. cbn. auto.
+    + intros (Hl & Hh & _). destruct l as [|x [|y r]]; cbn in Hl; try lia. cbn in Hh. subst x. left. reflexivity.
+  - rewrite in_flat_map. split.
+    + intros (w & Hw & Hin). apply in_map_iff in Hin. destruct Hin as (l' & <- & Hl').
+      apply IH in Hl'. destruct Hl' as (H1 & H2 & H3). split; [cbn [length]; lia|]. split; [reflexivity|].
+      destruct l' as [|y r]; [cbn in H1; lia|]. cbn [hd] in H2. subst y. cbn [is_walk]. split; [exact Hw|exact H3].
+    + intros (Hl & Hh & Hw). destruct l as [|x [|y r]]; cbn [length] in Hl; try lia. cbn [hd] in Hh. subst x.
+      cbn [is_walk] in Hw. destruct Hw as [Hy Hr]. exists y. split; [exact Hy|].
+      apply in_map_iff. exists (y :: r). split; [reflexivity|]. apply IH. split; [cbn [length]; lia|]. split; [reflexivity|exact Hr].
+Qed.
+
+Lemma shortest_paths_spec_proof p s t d l :
+  In l (shortest_paths p s t d) <-> length l = S d /\ hd 0 l = s /\ last l 0 = t /\ is_walk p l.
+Proof.
+  unfold shortest_paths. rewrite filter_In, walks_from_spec, Nat.eqb_eq. tauto.
+Qed.
+
+Lemma nodup_flat_map {A B} (f : A -> list B) (l : list A) :
+  NoDup l -> (forall x, In x l -> NoDup (f x)) ->
+  (forall x y b, In x l -> In y l -> In b (f x) -> In b (f y) -> x = y) -> NoDup (flat_map f l).
+Proof.
+  induction l as [|a l IH]; intros N Hf Hd; cbn [flat_map]; [constructor|].
+  inversion N as [|? ? Na N']; subst.
+  assert (IH' : NoDup (flat_map f l)).
+  { apply IH; [exact N'|intros x Hx; apply Hf; right; exact Hx|].
+    intros x y b Hx Hy. apply Hd; right; assumption. }
+  assert (Ha := Hf a (or_introl eq_refl)).
+  revert Ha. generalize (fun b Hb => fun y Hy Hb' => Hd a y b (or_introl eq_refl) (or_intror Hy) Hb Hb').
+  generalize (f a) as fa. induction fa as [|b fa IHf]; intros Hdisj Ha; cbn [app]; [exact IH'|].
+  inversion Ha as [|? ? Nb Nfa]; subst. constructor.
+  - intros Hin. apply in_app_iff in Hin. destruct Hin as [Hin|Hin]; [contradiction|].
+    apply in_flat_map in Hin. destruct Hin as (y & Hy & Hby).
+    assert (E := Hdisj b (or_introl eq_refl) y Hy Hby). subst y. contradiction.
+  - apply IHf; [|exact Nfa]. intros b' Hb' y Hy Hb2. apply (Hdisj b' (or_intror Hb') y Hy Hb2).
+Qed.
+
+Lemma walks_from_nodup p : gnd p -> forall k u, NoDup (walks_from p k u).
+Proof.
+  intros Hnd. induction k as [|k IH]; intros u; cbn [walks_from].
+  - constructor; [intros []|constructor].
+  - apply nodup_flat_map.
+    + apply Hnd.
+    + intros w _. apply NoDup_map_inj_in; [|apply IH]. intros x y _ _ E. injection E as E. exact E.
+    + intros x y b _ _ Hx Hy. apply in_map_iff in Hx. destruct Hx as (lx & <- & Hlx).
+      apply in_map_iff in Hy. destruct Hy as (ly & E & Hly). injection E as E. subst ly.
+      apply walks_from_spec in Hlx. apply walks_from_spec in Hly.
+      destruct Hlx as (_ & H1 & _). destruct Hly as (_ & H2 & _). congruence.
+Qed.
+
+Lemma shortest_paths_nodup_proof p s t d : gnd p -> NoDup (shortest_paths p s t d).
+Proof. intros Hnd. unfold shortest_paths. apply NoDup_filter. apply walks_from_nodup. exact Hnd. Qed.
+
+Definition cntw (p : graph) (k u t : nat) : nat := length (shortest_paths p u t k).
+
+Lemma length_filter_flat_map {A B} (P : B -> bool) (f : A -> list B) (l : list A) :
+  length (filter P (flat_map f l)) = sumn (map (fun w => length (filter P (f w))) l).
+Proof.
+  induction l as [|a l IH]; [reflexivity|]. cbn [flat_map map sumn fold_right].
+  rewrite filter_app, app_length, IH. reflexivity.
+Qed.
+
+Lemma filter_map_comm {A B} (P : B -> bool) (g : A -> B) (l : list A) :
+  filter P (map g l) = map g (filter (fun x => P (g x)) l).
+Proof.
+  induction l as [|a l IH]; [reflexivity|]. cbn [map filter]. destruct (P (g a)); cbn [map]; rewrite IH; reflexivity.
+Qed.
+
+Lemma walks_from_nonempty p k u l : In l (walks_from p k u) -> l <> [].
+Proof. intros H. apply walks_from_spec in H. destruct H as (H & _). intros ->. cbn in H. lia. Qed.
+
+Lemma cntw_S p k u t : cntw p (S k) u t = sumn (map (fun w => cntw p k w t) (row p u)).
+Proof.
+  unfold cntw, shortest_paths. cbn [walks_from]. rewrite length_filter_flat_map. f_equal.
+  apply map_ext. intros w. rewrite filter_map_comm, map_length. f_equal.
+  apply filter_ext_in. intros l Hl. apply walks_from_nonempty in Hl.
+  destruct l as [|y r]; [contradiction|]. reflexivity.
+Qed.
+
+Lemma cntw_0 p u t : cntw p 0 u t = if Nat.eqb u t then 1 else 0.
+Proof. unfold cntw, shortest_paths. cbn [walks_from filter last]. destruct (Nat.eqb u t); reflexivity. Qed.
+
+Definition qn (m : nat) : Q := inject_Z (Z.of_nat m).
+
+Lemma qn_sumn (f : nat -> nat) l : (qn (sumn (map f l)) == lsumf (fun w => qn (f w)) l)%Q.
+Proof.
+  induction l as [|a l IH]; [reflexivity|]. cbn [map sumn fold_right]. rewrite lsumf_cons. fold (sumn (map f l)).
+  unfold qn in *. rewrite Nat2Z.inj_add, inject_Z_plus, IH. reflexivity.
+Qed.
+
+(** The number of explicit walks is the walk count of the specification. *)
+Lemma cntw_nw p : gwf p -> gnd p -> forall k u t, u < length p -> t < length p ->
+  (qn (cntw p k u t) == nw p k u t)%Q.
+Proof.
+  intros Hwf Hnd. induction k as [|k IH]; intros u t Hu Ht.
+  - rewrite cntw_0. cbn [nw]. destruct (Nat.eqb u t); reflexivity.
+  - rewrite cntw_S, qn_sumn, (nw_first p k u t Hu Ht).
+    rewrite (lsumf_bsum (length p) _ (row p u) (Hnd u) (fun w Hw => Hwf u w Hw)).
+    apply bsum_ext. intros w Hw. unfold A01. destruct (memn w (row p u)); [|ring].
+    rewrite (IH w t Hw Ht). ring.
 Qed.
